@@ -934,6 +934,17 @@ func optCase(g *G, id int, f feat) Case {
 		c.Oracle = "marshal error: " + err.Error()
 		return c
 	}
+	// interleaved: the options of other requests are marshalled before these bytes are read
+	snap := append([]byte(nil), buf...)
+	for i := 0; i < 2; i++ {
+		other := &query.ProcessorOptions{}
+		g.fillOptions(other, feat{false, false})
+		_, _ = other.MarshalBinary()
+	}
+	if !intact(&c, "options", buf, snap) {
+		c.Lost = []string{"*"}
+		return c
+	}
 	var back query.ProcessorOptions
 	func() {
 		defer func() {
